@@ -12,11 +12,16 @@ If every transition out of a state is a self-loop the frontier empties and every
 history is covered by induction (closure).
 """
 import copy
+import hashlib
 import types
 
 import numpy
 
 from .core import digest
+
+
+def _h(b):
+    return hashlib.sha1(b).hexdigest()[:16]
 
 
 def obj_digest(o, _depth=0):
@@ -25,19 +30,25 @@ def obj_digest(o, _depth=0):
     if _depth > 6:
         return "deep"
     if isinstance(o, numpy.ndarray):
-        return digest([str(o.dtype), o.shape, o.strides if not o.flags.c_contiguous else "C", o])
+        head = "%s%s%s" % (o.dtype.str, o.shape, "C" if o.flags.c_contiguous else o.strides)
+        if o.dtype.hasobject:
+            return _h((head + repr(o.tolist())).encode())
+        h = hashlib.sha1(head.encode())
+        h.update(o.tobytes() if not o.flags.c_contiguous else memoryview(o).cast("B") if o.size else b"")
+        return h.hexdigest()[:16]
     if isinstance(o, numpy.random.Generator):
-        return digest(repr(_gen_state(o)))
+        return _h(repr(_gen_state(o)).encode())
     if isinstance(o, (int, float, complex, str, bytes, bool, type(None), numpy.generic)):
         return repr(o)
     if isinstance(o, (list, tuple)):
-        return digest([type(o).__name__] + [obj_digest(x, _depth + 1) for x in o])
+        return _h((type(o).__name__ + "[" + ",".join(obj_digest(x, _depth + 1) for x in o) + "]").encode())
     if isinstance(o, dict):
-        return digest([[str(k), obj_digest(v, _depth + 1)] for k, v in sorted(o.items(), key=lambda kv: str(kv[0]))])
+        items = sorted((str(k), obj_digest(v, _depth + 1)) for k, v in o.items())
+        return _h(("{" + ",".join(k + ":" + v for k, v in items) + "}").encode())
     if isinstance(o, (types.FunctionType, types.BuiltinFunctionType, types.ModuleType, type, types.MethodType)):
         return "callable:" + getattr(o, "__name__", "?")
     if hasattr(o, "__dict__"):
-        return digest([type(o).__name__, obj_digest(vars(o), _depth + 1)])
+        return _h((type(o).__name__ + obj_digest(vars(o), _depth + 1)).encode())
     return repr(o)
 
 
@@ -46,18 +57,20 @@ def _gen_state(g):
     return st
 
 
+_SKIP_TYPES = (types.FunctionType, types.BuiltinFunctionType, types.ModuleType, type)
+
+
 def module_globals_digest(mods):
     out = []
     for m in mods:
-        for k, v in sorted(vars(m).items()):
-            if k.startswith("__"):
-                continue
-            if isinstance(v, (types.FunctionType, types.BuiltinFunctionType, types.ModuleType, type)):
+        for k, v in vars(m).items():
+            if k[:2] == "__" or isinstance(v, _SKIP_TYPES):
                 continue
             if callable(v) and not isinstance(v, numpy.ndarray):
                 continue
-            out.append([m.__name__ + "." + k, obj_digest(v)])
-    return digest(out)
+            out.append(m.__name__ + "." + k + "=" + obj_digest(v))
+    out.sort()
+    return digest("|".join(out))
 
 
 class World(object):
@@ -105,10 +118,11 @@ def bfs(world, alphabet, apply_op, on_transition, depth, max_states=None):
         for hist, snap in frontier:
             world.restore(snap)
             ops = list(alphabet(world))
+            # the components of the restored snapshot are the same for every operation tried from it
+            pre = world.components()
+            pre_key = digest(sorted(pre.items()))
             for op in ops:
                 world.restore(snap)
-                pre = world.components()
-                pre_key = digest(sorted(pre.items()))
                 result = apply_op(world, op)
                 transitions += 1
                 k = world.key()
@@ -128,3 +142,97 @@ def bfs(world, alphabet, apply_op, on_transition, depth, max_states=None):
             break
     return {"states": len(seen), "transitions": transitions, "self_loops": self_loops,
             "max_depth": max_depth, "frontier_empty": not frontier, "capped": capped}
+
+
+# ----------------------------------------------------------------------------- process snapshots
+
+def _claim(seen_dir, key, depth):
+    """-> (expand, is_new): atomically record that state `key` was reached at `depth`"""
+    import os
+    path = os.path.join(seen_dir, key)
+    try:
+        fd = os.open(path, os.O_CREAT | os.O_EXCL | os.O_WRONLY, 0o600)
+        os.write(fd, str(depth).encode())
+        os.close(fd)
+        return True, True
+    except FileExistsError:
+        try:
+            old = int(open(path).read() or "0")
+        except (OSError, ValueError):
+            old = 0
+        if depth < old:
+            with open(path, "w") as f:
+                f.write(str(depth))
+            return True, False
+        return False, False
+
+
+def fork_search(world, alphabet, apply_op, check, depth, seen_dir, hist=()):
+    """Explicit-state search in which a snapshot is an OS process: the state reached by a history is the
+    process that executed it, and trying an operation means fork() + apply in the child.  Nothing is copied
+    or re-created, so aliasing between live objects and any state hidden in modules (caches, 'current'
+    generators) is preserved exactly - which copy.deepcopy snapshots cannot do.
+
+    check(hist, op, pre_components, world, result, is_self_loop, out) records the invariants into `out`.
+    De-duplication: the canonical key of every reached state is claimed in `seen_dir` together with the depth
+    at which it was reached; a state is expanded when it is new or reached at a smaller depth than before.
+    Returns (Out, stats) aggregated over the whole subtree."""
+    import os
+    import pickle
+    import traceback
+    from .core import Out
+    out = Out()
+    stats = {"states": 0, "transitions": 0, "self_loops": 0, "max_depth": len(hist)}
+    if len(hist) >= depth:
+        return out, stats
+    for op in list(alphabet(world)):
+        r, w = os.pipe()
+        pid = os.fork()
+        if pid == 0:
+            code = 0
+            try:
+                os.close(r)
+                cout = Out()
+                cst = {"states": 0, "transitions": 1, "self_loops": 0, "max_depth": len(hist) + 1}
+                try:
+                    pre = world.components()
+                    pre_key = digest(sorted(pre.items()))
+                    result = apply_op(world, op)
+                    key = world.key()
+                    loop = key == pre_key
+                    cst["self_loops"] = int(loop)
+                    check(hist, op, pre, world, result, loop, cout)
+                    expand, new = (False, False) if loop else _claim(seen_dir, key, len(hist) + 1)
+                    cst["states"] += int(new)
+                    if expand:
+                        sub_out, sub_st = fork_search(world, alphabet, apply_op, check, depth, seen_dir, hist + (op,))
+                        cout.merge(sub_out)
+                        for k_, v_ in sub_st.items():
+                            cst[k_] = max(cst[k_], v_) if k_ == "max_depth" else cst[k_] + v_
+                except BaseException:
+                    cout.check("no_exception", False, sub="h=%s" % ",".join(hist + (op,)),
+                               detail=traceback.format_exc()[-1200:])
+                with os.fdopen(w, "wb") as f:
+                    pickle.dump((cout, cst), f)
+            except BaseException:
+                code = 3
+            finally:
+                try:
+                    import multiprocessing
+                    for c in multiprocessing.active_children():
+                        c.terminate()
+                except BaseException:
+                    pass
+                os._exit(code)
+        os.close(w)
+        with os.fdopen(r, "rb") as f:
+            data = f.read()
+        os.waitpid(pid, 0)
+        if not data:
+            out.check("no_exception", False, sub="h=%s" % ",".join(hist + (op,)), detail="child process died")
+            continue
+        cout, cst = pickle.loads(data)
+        out.merge(cout)
+        for k_, v_ in cst.items():
+            stats[k_] = max(stats[k_], v_) if k_ == "max_depth" else stats[k_] + v_
+    return out, stats
